@@ -295,35 +295,58 @@ func ruleC09ListenerKept(c *Ctx) {
 			return false
 		}
 		bad := false
-		seen := map[*ssa.BasicBlock]bool{f.Blocks[0]: true}
-		work := []*ssa.BasicBlock{f.Blocks[0]}
-		for len(work) > 0 && !bad {
-			b := work[len(work)-1]
-			work = work[:len(work)-1]
-			stop := false
+		// depth-first over the paths that have not registered the listener,
+		// remembering how each condition on the way was decided (the answer
+		// may be the looked-up flag itself: `return size, ok`)
+		type pathFacts map[ssa.Value]bool
+		var walk func(b *ssa.BasicBlock, facts pathFacts, onPath map[*ssa.BasicBlock]bool, budget *int)
+		walk = func(b *ssa.BasicBlock, facts pathFacts, onPath map[*ssa.BasicBlock]bool, budget *int) {
+			if bad || onPath[b] || *budget <= 0 {
+				return
+			}
+			*budget--
+			onPath[b] = true
+			defer delete(onPath, b)
 			for _, in := range b.Instrs {
 				if hit(in) {
-					stop = true
-					break
+					return
 				}
 				if ret, isRet := in.(*ssa.Return); isRet && len(ret.Results) == 2 {
 					for _, v := range c.resultValues(ret, 1) {
-						if k, isConst := boolConstOf(v); !isConst || !k {
-							bad = true
-							c.violate(rule, "listener-kept:"+refName(f), ret.Pos(), fnName(f), "the size is reported as not yet known on a path on which the listener was not handed to the record: the object that asked is never told and is never finalised, depending on the order in which objects arrive")
+						if k, isConst := boolConstOf(v); isConst && k {
+							continue
 						}
+						cv, truth := normCond(v, true)
+						if decided, known := facts[cv]; known && decided == truth {
+							continue // known to be true on this path
+						}
+						bad = true
+						c.violate(rule, "listener-kept:"+refName(f), ret.Pos(), fnName(f), "the size is reported as not yet known on a path on which the listener was not handed to the record: the object that asked is never told and is never finalised, depending on the order in which objects arrive")
 					}
+					return
 				}
 			}
-			if stop {
-				continue
-			}
-			for _, s := range b.Succs {
-				if !seen[s] {
-					seen[s] = true
-					work = append(work, s)
+			if iff, isIf := b.Instrs[len(b.Instrs)-1].(*ssa.If); isIf && len(b.Succs) == 2 {
+				cv, truth := normCond(iff.Cond, true)
+				for i, sc := range b.Succs {
+					nf := pathFacts{}
+					for k, v := range facts {
+						nf[k] = v
+					}
+					nf[cv] = truth == (i == 0)
+					walk(sc, nf, onPath, budget)
 				}
+				return
 			}
+			for _, sc := range b.Succs {
+				walk(sc, facts, onPath, budget)
+			}
+		}
+		budget := 4000
+		walk(f.Blocks[0], pathFacts{}, map[*ssa.BasicBlock]bool{}, &budget)
+		if budget <= 0 && !bad {
+			c.notDecided(rule, "listener-kept:"+refName(f), f.Pos(), "too many paths to enumerate")
+			continue
 		}
 		if !bad {
 			c.hold(rule, "listener-kept:"+refName(f), f.Pos(), "\"not known yet\" is answered only after the listener was registered")
